@@ -73,14 +73,14 @@ def Module.hasMain (m : Module) : Bool := m.defines .fn "main"
 
 inductive DiagClass where
   | cyclic | nomodule | notype | noitem | privtype | privfn | privvar | dupname | duptype | nomain
-  | dupglobal | duptypedef | dupfn
+  | dupglobal | duptypedef | dupfn | nameclash
   deriving DecidableEq, Repr, Inhabited
 
 def DiagClass.name : DiagClass → String
   | .cyclic => "cyclic" | .nomodule => "nomodule" | .notype => "notype" | .noitem => "noitem"
   | .privtype => "privtype" | .privfn => "privfn" | .privvar => "privvar" | .dupname => "dupname"
   | .duptype => "duptype" | .nomain => "nomain" | .dupglobal => "dupglobal" | .duptypedef => "duptypedef"
-  | .dupfn => "dupfn"
+  | .dupfn => "dupfn" | .nameclash => "nameclash"
 
 /-- An error-level diagnostic: class, the module whose text it points into, and the index of the
 import statement it points at (`none`: not inside an import statement). -/
@@ -225,17 +225,24 @@ def AState.adj (st : AState) : Adj := st.mods.map fun (n, t) => (n, t.importsMod
 /-- The tables of a module once its imports are done: type definitions, function signatures,
 globals; a definition whose name is already taken (by an import) is reported; a type keeps the
 earlier entry, a global replaces it. -/
-def Tables.complete (t : Tables) (m : Module) : Tables × List DiagClass :=
+def Tables.complete (t0 : Tables) (m : Module) : Tables × List DiagClass :=
   m.items.foldl (fun (acc : Tables × List DiagClass) i =>
     let (t, ds) := acc
     match i.kind with
     | .type => if (t.types.lookup i.name).isSome then (t, ds ++ [.duptypedef]) else (t.addType i.name i.pub, ds)
-    | .fn => ({ t with fns := t.fns ++ [(i.name, i.pub)] }, if (t.fns.lookup i.name).isSome then ds ++ [.dupfn] else ds)
+    | .fn =>
+      -- `functionSignature`: a second function of the name, and (repair F3) a function named like a value that is
+      -- in the root scope when the signatures are registered: the imported values `t0.values` (the globals follow later)
+      ({ t with fns := t.fns ++ [(i.name, i.pub)] },
+       ds ++ (if (t.fns.lookup i.name).isSome then [.dupfn] else [])
+          ++ (if (t0.values.lookup i.name).isSome then [.nameclash] else []))
     | .glob =>
+      -- (repair F3) a global named like a function of the module, wherever the function stands in the source
+      let dc : List DiagClass := if m.defines .fn i.name then [.nameclash] else []
       -- `addVar(…, forceAdd = true)`: a global replaces an entry of the same name (and is reported)
       if (t.values.lookup i.name).isSome then
-        ({ t with values := t.values.map fun (k, p) => if k == i.name then (k, i.pub) else (k, p) }, ds ++ [.dupglobal])
-      else (t.addValue i.name i.pub, ds)) (t, [])
+        ({ t with values := t.values.map fun (k, p) => if k == i.name then (k, i.pub) else (k, p) }, ds ++ dc ++ [.dupglobal])
+      else (t.addValue i.name i.pub, ds ++ dc)) (t0, [])
 
 /-- `importItem(node)` for the import statement number `idx` of module `name`; `rec` is the
 recursive call `analyzeModule`. -/
